@@ -13,7 +13,7 @@ RULE = ("G6: valid Sid paths (every type with a path template, both configuratio
         "from its valid origin in exactly one mutation.")
 ASSUME = ["only mutants that R8 classifies as conforming to no template are judged for the 'must be untyped' clause; the 'typed => path(c) == p' "
           "clause is judged on every path", "path(c) == p is compared on the posix string form"]
-BUDGET = {"quick": 32000, "thorough": 480000}
+BUDGET = {"quick": 32000, "thorough": 3200000}
 NSHARDS = 16
 from checks.c05 import NAMES  # noqa: E402
 
